@@ -46,15 +46,27 @@ func runLBDist(x *X) {
 	}
 	var bcs []config.BackendConfig
 	for i := 0; i < nb; i++ {
-		m := newMember()
-		members = append(members, m)
-		bcs = append(bcs, config.BackendConfig{Name: m.name, Address: "http://" + m.host, Weight: m.weight})
+		members = append(members, newMember())
 	}
 	eff := func(w int) int {
 		if w < 1 {
 			return 1
 		}
 		return w
+	}
+	// a pool sized by a rule of thumb: one machine as strong as a multiple of all the others together
+	// (its running state then passes through the same values as at the start in the middle of a cycle)
+	if nb >= 3 && c.Intn(6, "one-member-multiple-of-the-rest") == 0 {
+		k, rest := c.Intn(nb, "multiple-member"), 0
+		for j, m := range members {
+			if j != k {
+				rest += eff(m.weight)
+			}
+		}
+		members[k].weight = []int{2, 3, 6}[c.Intn(3, "multiple")] * rest
+	}
+	for _, m := range members {
+		bcs = append(bcs, config.BackendConfig{Name: m.name, Address: "http://" + m.host, Weight: m.weight})
 	}
 
 	s := x.StartMicro()
@@ -123,7 +135,11 @@ func runLBDist(x *X) {
 	nHist := c.Intn(6, "nhist")
 	freshPool := nHist == 0
 	for i := 0; i < nHist && !x.dead; i++ {
-		switch c.Pick([]int{3, 3, 3, 2, 3, 3, 2, 2}, "hist") {
+		kind := c.Pick([]int{3, 3, 3, 2, 3, 3, 2, 2}, "hist")
+		if i == nHist-1 && len(members) > 1 && c.Intn(3, "end-with-mid-cycle-removal") == 0 {
+			kind = 5 // the history ends in the middle of a cycle with a member leaving: nothing later smooths it over
+		}
+		switch kind {
 		case 7: // two members leave and come back in the other order (a rolling restart)
 			if len(members) < 3 {
 				continue
@@ -173,6 +189,13 @@ func runLBDist(x *X) {
 			for j := 0; j < n && !x.dead; j++ {
 				oneReq("192.0.2.1")
 			}
+			// (or any other member: whoever leaves in the middle of a cycle, and whatever its
+			// running state is at that moment, the remaining ones share by weight from then on)
+			which := "heaviest"
+			if c.Intn(4, "rm-any-mid-cycle") == 0 {
+				k = c.Intn(len(members), "rm-mid")
+				which = "any"
+			}
 			m := members[k]
 			x.Do("remove", func() { h.lb.RemoveBackend(m.name) }, onErr)
 			net.mu.Lock()
@@ -180,7 +203,7 @@ func runLBDist(x *X) {
 			net.mu.Unlock()
 			members = append(members[:k], members[k+1:]...)
 			delete(ejectedUntil, m.name)
-			hist = append(hist, fmt.Sprintf("traffic(%d)+remove-heaviest(%s)", n, m.name))
+			hist = append(hist, fmt.Sprintf("traffic(%d)+remove-%s(%s)", n, which, m.name))
 		case 0: // add
 			if len(members) >= 8 {
 				continue
